@@ -133,6 +133,23 @@ def scan_forbidden():
     return bad
 
 
+def coqchk_property(pid):
+    """independent re-check (coqchk) of the compiled property file and everything it depends on;
+    returns the axiom report; raises BuildError if coqchk fails or reports anything but <none>"""
+    rc, out = sh(["coqchk", "-o", "-silent", "-Q", ".", "hls", "hls.Properties.%s" % pid], cwd=COQ, timeout=3000)
+    tail = out[-1500:]
+    if rc != 0:
+        raise BuildError("coqchk:%s" % pid, tail)
+    report = {}
+    for key in ("Axioms", "Constants/Inductives relying on type-in-type", "Constants/Inductives relying on unsafe (co)fixpoints",
+                "Inductives whose positivity is assumed"):
+        m = re.search(r"\* " + re.escape(key) + r":\s*(.*)", out)
+        report[key] = m.group(1).strip() if m else "?"
+    if any(v != "<none>" for v in report.values()):
+        raise BuildError("coqchk:%s" % pid, json.dumps(report))
+    return report
+
+
 ALLOWED_AXIOMS = set()   # none: every theorem must be closed under the global context
 
 
